@@ -47,7 +47,7 @@ def case_line(ver, nv, tris, inf, labels, steps, save=1):
 def gen_cases(tier, rng):
     cases = []
     quick = tier == "quick"
-    # the witness of the known re-fit defect first
+    # the former counter-example of the re-fit (repaired as C17-refit-first-subsegment-start) first
     nv, tris = disjoint_tris(6)
     cases.append(case_line("fo4", nv, tris, "0:1.0+2.0;3:-", [0, 0, 1, 2, 2, 3], [[15]]))
     # exhaustive label lists
@@ -105,7 +105,15 @@ def gen_files(tier, rng):
     return out
 
 
+def finding_status(fid):
+    for k in vlib.load_known():
+        if k.get("id") == fid:
+            return k.get("status")
+    return None
+
+
 def check_case(rep, case, iline, mset, mdel, stats):
+    refit_status = finding_status(KNOWN_REFIT)
     I = iline[2:].split(" | ")
     kvc = gs.kv(case)
     mismatch, fails = None, []
@@ -158,14 +166,16 @@ def check_case(rep, case, iline, mset, mdel, stats):
                 errs.append("triangles after deletion are not the untouched ones")
             stats["refits"] = stats.get("refits", 0) + 1
             if errs:
-                if gs.refit_bug_applies(prev, cur):
+                applies = gs.refit_bug_applies(prev, cur)
+                if applies and refit_status == "known":
                     rep.known_finding(KNOWN_REFIT, case[:160])
                     stats["known"] = stats.get("known", 0) + 1
-                    ok_so_far = False                    # labels are off from here on
                 else:
+                    if applies:
+                        errs = ["the defect repaired as %s is back" % KNOWN_REFIT] + errs
                     fails.append({"case": case, "step": k + 1, "idx": idx, "errors": errs[:4]})
-                    ok_so_far = False
-            elif gs.refit_bug_applies(prev, cur):
+                ok_so_far = False                        # labels are off from here on
+            elif refit_status == "known" and gs.refit_bug_applies(prev, cur):
                 fails.append({"case": case, "step": k + 1, "errors": ["known re-fit defect expected on this input but the labels are right: matcher or tree changed"]})
             prev = cur
         rl = [x for x in I if x.startswith("RL ")]
